@@ -29,6 +29,11 @@ RootsI3Any == [G3 -> SUBSET I3]
 RootsI4 == RootsFrom0(I4)
 
 NoFail == {{}}
+SoftTwo == {{"a", "b"}, {"b", "c"}, {"a", "c"}}
+(* graphs in which the root reaches everything directly: errors arise in different groups *)
+SuccStar == {[i \in I3 |-> IF i = "a" THEN {"b", "c"} ELSE {}], [i \in I3 |-> IF i = "a" THEN {"b"} ELSE IF i = "b" THEN {"c"} ELSE {}],
+             [i \in I3 |-> {}]}
+RootsAll == {[g \in G3 |-> IF g = 0 THEN {"a", "b", "c"} ELSE {}], [g \in G3 |-> IF g = 0 THEN {"a"} ELSE {}]}
 UpToTwoFail(I) == {F \in SUBSET I : Cardinality(F) \in 1..2}
 FailI3 == UpToTwoFail(I3)
 =============================================================================
